@@ -69,9 +69,20 @@ def judge(chk, obs_path):
 
 
 def run(chk):
+    run_alloc_level(chk, CONFIGS[chk.prop][chk.tier])
+    if chk.prop == "C11":
+        run_shapes(chk)
+    # the same property at the level of the controller (Service statuses, re-syncs, restarts)
+    import fam_ctrl
+    fam_ctrl.run_controller(chk)
+
+
+def run_alloc_level(chk, configs):
+    """Allocator-level roles A/B/C for the given (cfg, mode) list; failures whose name starts with the
+    property being checked are confirmed and reported."""
     domain_path, _ = vlib.domain_dump(chk)
     prefix = chk.prop + "."
-    for cfg, mode in CONFIGS[chk.prop][chk.tier]:
+    for cfg, mode in configs:
         if mode == "model":
             res = vlib.tlc(chk.work, "AllocMC", cfg, workers=16, timeout=3000, want_json=False)
             chk.add_model_run(cfg, res)
@@ -101,6 +112,8 @@ def run(chk):
             edges, inits, res = vlib.generate_edges(chk, "AllocMC", cfg)
             init_key = inits[0]
             sample = SAMPLE.get(chk.tier)
+            if sample and chk.prop not in PROPS:
+                sample = sample // 2      # allocator-level side run of a controller-family property
             walks, left = vlib.edge_cover_walks(edges, init_key, max_len=40, seed=chk.seed, sample=sample)
         init_state = json.loads(init_key)
         steps = [[edges[i][1] for i in w] for w in walks]
@@ -166,11 +179,6 @@ def run(chk):
                        "(edge cover by walks); non-trivial = distinct (memory, layout, operation) whose step changed memory")
     chk.assumptions += ["services always carry at least one port (the API forbids zero-port LoadBalancers)",
                         "catalogue of pool layouts and request profiles as listed in spec/Domain.tla and spec/AllocMC.tla"]
-    if chk.prop == "C11":
-        run_shapes(chk)
-    # the same property at the level of the controller (Service statuses, re-syncs, restarts)
-    import fam_ctrl
-    fam_ctrl.run_controller(chk)
 
 
 def run_shapes(chk, only=None):
